@@ -11,6 +11,7 @@ import (
 	"crsim/simhttp"
 	"crsim/simnet"
 	"crsim/simrt"
+	"crsim/simsarama"
 
 	"github.com/grafana/carbon-relay-ng/cfg"
 	"github.com/grafana/carbon-relay-ng/input"
@@ -33,6 +34,9 @@ type c14Plan struct {
 	Traffic  int      `json:"traffic_lines"`
 	Flap     bool     `json:"endpoints_come_and_go"`
 	AdvanceS int      `json:"advance_s"`
+
+	KafkaConnectFails int      `json:"kafka_connect_failures,omitempty"`
+	KafkaScript       []string `json:"kafka_send_outcomes,omitempty"`
 }
 
 var c14Ints = []string{"0", "1", "2", "10", "1000", "100000", "1", "5", "50", "3", "99999999999999999999", "-1", "007", "1.5", "x", ""}
@@ -176,6 +180,46 @@ func c14Cmd(g *simrt.Choices, routeKeys *[]string, good *c14Good) string {
 		}
 		return fmt.Sprintf("addRoute %s %s%s  %s", typ, key, opts, strings.Join(dests, "  "))
 	case 7:
+		if g.Bool(0.4) {
+			// a kafkaMdm route (the cluster is scripted, DESIGN.md 3.6b); bufSize is always given: the default of 1e7 slots is legal
+			// but costs a quarter of a gigabyte per route
+			key := fmt.Sprintf("kf%d", len(*routeKeys))
+			*routeKeys = append(*routeKeys, key)
+			opts := []string{"bufSize=" + []string{"100", "1", "0", "1000", "7"}[g.Pick(5)]}
+			for _, k := range []string{"flushMaxNum", "flushMaxWait", "timeout"} {
+				if g.Bool(0.35) {
+					opts = append(opts, k+"="+c14Int(g))
+				}
+			}
+			if g.Bool(0.2) {
+				opts = append(opts, "blocking="+[]string{"true", "false"}[g.Pick(2)])
+			}
+			if g.Bool(0.15) {
+				opts = append(opts, "tlsEnabled="+[]string{"true", "false"}[g.Pick(2)])
+				if g.Bool(0.5) {
+					opts = append(opts, "tlsSkipVerify=true")
+				}
+				if g.Bool(0.4) {
+					opts = append(opts, "tlsClientCert=/nonexistent/cert.pem tlsClientKey=/nonexistent/key.pem")
+				}
+			}
+			if g.Bool(0.15) {
+				opts = append(opts, "saslEnabled="+[]string{"true", "false"}[g.Pick(2)])
+				opts = append(opts, "saslMechanism="+[]string{"SCRAM-SHA-256", "SCRAM-SHA-512", "PLAIN", "bogus"}[g.Pick(4)])
+				if g.Bool(0.7) {
+					opts = append(opts, "saslUsername=u saslPassword=p")
+				}
+			}
+			brokers := []string{"kafka.sim:9092", "kafka.sim:9092,kafka2.sim:9092", "kafka.sim", ","}[g.Pick(4)]
+			codec := []string{"none", "gzip", "snappy", "snappy", "lz4"}[g.Pick(5)]
+			partBy := []string{"byOrg", "bySeries", "bySeriesWithTags", "bySeriesWithTagsFnv", "bogus"}[g.Pick(5)]
+			org := []string{"1", "7", "0", "x", "-3"}[g.Pick(5)]
+			if clean {
+				codec, partBy, org = []string{"none", "gzip", "snappy"}[g.Pick(3)], []string{"byOrg", "bySeries", "bySeriesWithTags", "bySeriesWithTagsFnv"}[g.Pick(4)], "1"
+			}
+			filt := []string{"", "prefix=a. ", "regex=^stats ", "sub=cpu "}[g.Pick(4)]
+			return fmt.Sprintf("addRoute kafkaMdm %s %s %s mdm %s @SCHEMAS@ %s %s %s", key, filt, brokers, codec, partBy, org, strings.Join(opts, " "))
+		}
 		key := fmt.Sprintf("gn%d", len(*routeKeys))
 		*routeKeys = append(*routeKeys, key)
 		var opts []string
@@ -271,8 +315,28 @@ func c14TOML(g *simrt.Choices, sf, af string) string {
 		fmt.Fprintf(&b, "[[rewriter]]\nold = '%s'\nnew = 'N'\nnot = ''\nmax = %s\n", []string{"a", "/a/", "", "/(/"}[g.Pick(4)], []string{"-1", "0", "3", "-2"}[g.Pick(4)])
 	}
 	for i, n := 0, g.Intn(3); i < n; i++ {
-		typ := []string{"sendAllMatch", "sendFirstMatch", "consistentHashing", "grafanaNet", "bogus"}[g.Pick(5)]
+		typ := []string{"sendAllMatch", "sendFirstMatch", "consistentHashing", "grafanaNet", "bogus", "kafkaMdm"}[g.Pick(6)]
 		fmt.Fprintf(&b, "[[route]]\nkey = 'tr%d'\ntype = '%s'\n", i, typ)
+		if typ == "kafkaMdm" {
+			fmt.Fprintf(&b, "brokers = [%s]\ntopic = 'mdm'\ncodec = '%s'\npartitionBy = '%s'\nschemasFile = '%s'\nbufSize = %s\n",
+				[]string{"'kafka.sim:9092'", "'kafka.sim:9092', 'kafka2.sim:9092'", ""}[g.Pick(3)], []string{"none", "snappy", "gzip", "bogus"}[g.Pick(4)],
+				[]string{"byOrg", "bySeries", "bySeriesWithTags", "bogus"}[g.Pick(4)], sf, []string{"100", "1", "1000"}[g.Pick(3)])
+			for _, k := range []string{"flushMaxNum", "flushMaxWait", "timeout", "orgId"} {
+				if g.Bool(0.3) {
+					fmt.Fprintf(&b, "%s = %s\n", k, []string{"0", "1", "5", "-1", "100"}[g.Pick(5)])
+				}
+			}
+			if g.Bool(0.2) {
+				b.WriteString("blocking = true\n")
+			}
+			if g.Bool(0.15) {
+				fmt.Fprintf(&b, "saslEnabled = true\nsaslMechanism = '%s'\nsaslUsername = 'u'\nsaslPassword = 'p'\n", []string{"SCRAM-SHA-256", "SCRAM-SHA-512", "bogus", ""}[g.Pick(4)])
+			}
+			if g.Bool(0.1) {
+				b.WriteString("tlsEnabled = true\ntlsClientCert = '/nonexistent/cert.pem'\ntlsClientKey = '/nonexistent/key.pem'\n")
+			}
+			continue
+		}
 		if typ == "grafanaNet" {
 			fmt.Fprintf(&b, "addr = 'http://grafana.sim/metrics'\napikey = 'k'\nschemasFile = '%s'\naggregationFile = '%s'\n", sf, af)
 			for _, k := range []string{"concurrency", "bufSize", "flushMaxNum", "flushMaxWait", "timeout"} {
@@ -332,6 +396,12 @@ func scenC14(x *Exec) {
 	}
 	p.Traffic = 5 + g.Intn(40)
 	p.Flap = g.Bool(0.5)
+	if g.Bool(0.4) {
+		p.KafkaConnectFails = g.Intn(5)
+		for i, n := 0, g.Intn(6); i < n; i++ {
+			p.KafkaScript = append(p.KafkaScript, []string{"ok", "fail-all", "fail-some", "slow"}[g.Pick(4)])
+		}
+	}
 	p.AdvanceS = []int{25, 70, 130}[g.Pick(3)]
 	x.Out.Sample = p
 	cfg0.Horizon = 3 * time.Hour
@@ -346,6 +416,7 @@ func scenC14(x *Exec) {
 		nw := simnet.NewNet(nc)
 		simnet.Use(nw)
 		simhttp.Use(&gnServer{s: s, cond: simrt.NewCond()})
+		simsarama.Use(&kafkaCluster{s: s, ConnectFails: p.KafkaConnectFails, Script: p.KafkaScript, NumPart: 4, Topic: "mdm"})
 		var tbl *table.Table
 		var berr error
 		started := false
